@@ -786,3 +786,903 @@ Qed.
 Theorem stream_truncation st b p s : wf_stream st -> wf_block b ->
   ser_block b = p ++ s -> s <> [] -> p <> [] -> ref_parse (serialize st ++ p) = None.
 Proof. intros. unfold ref_parse. eapply parse_stream_trunc; eauto. Qed.
+(* ================================================================== *)
+(* 6. The implementation's decoders: unfolding                         *)
+(* ================================================================== *)
+Lemma dec_idc_loop_eq fuel n idx s b : dec_idc_loop fuel n idx s b =
+  if (n =? 0)%N then DOk s b else
+  match fuel with
+  | O => DErr EEof
+  | S f =>
+    match dec_sv b with
+    | Ok d b1 =>
+      match dec_count b1 with
+      | Ok c b2 => match st_addw s (wrap_i64 (idx + d)) c with
+                   | Some s' => dec_idc_loop f (n - 1)%N (wrap_i64 (idx + d)) s' b2
+                   | None => DPanic
+                   end
+      | _ => DErr EEof
+      end
+    | _ => DErr EEof
+    end
+  end.
+Proof. destruct fuel; reflexivity. Qed.
+Lemma dec_id_loop_eq fuel n idx s b : dec_id_loop fuel n idx s b =
+  if (n =? 0)%N then DOk s b else
+  match fuel with
+  | O => DErr EEof
+  | S f =>
+    match dec_sv b with
+    | Ok d b1 => match st_add s (wrap_i64 (idx + d)) with
+                 | Some s' => dec_id_loop f (n - 1)%N (wrap_i64 (idx + d)) s' b1
+                 | None => DPanic
+                 end
+    | _ => DErr EEof
+    end
+  end.
+Proof. destruct fuel; reflexivity. Qed.
+Lemma dec_cc_loop_eq fuel n idx delta s b : dec_cc_loop fuel n idx delta s b =
+  if (n =? 0)%N then DOk s b else
+  match fuel with
+  | O => DErr EEof
+  | S f =>
+    match dec_count b with
+    | Ok c b1 => match st_addw s idx c with
+                 | Some s' => dec_cc_loop f (n - 1)%N (wrap_i64 (idx + delta)) delta s' b1
+                 | None => DPanic
+                 end
+    | _ => DErr EEof
+    end
+  end.
+Proof. destruct fuel; reflexivity. Qed.
+Arguments dec_idc_loop : simpl never.
+Arguments dec_id_loop : simpl never.
+Arguments dec_cc_loop : simpl never.
+
+Lemma of_nat_S_eqb k : (N.of_nat (S k) =? 0)%N = false.
+Proof. apply N.eqb_neq. lia. Qed.
+
+Lemma dec_count_enc (c : f64) rest : dec_count (Varfloat.enc_vf c ++ rest) = Ok (wire_w c) rest.
+Proof. unfold dec_count. rewrite dec_vf_enc. reflexivity. Qed.
+Lemma dec_count_prefix (c : f64) p s : Varfloat.enc_vf c = p ++ s -> s <> [] -> dec_count p = Eof.
+Proof. intros H Hs. unfold dec_count. rewrite (dec_vf_prefix _ _ _ H Hs). reflexivity. Qed.
+
+(* the implementation's view of a grammar flag *)
+Lemma flag_type_g ty sub : (ty < 4)%N -> flag_type (g_flag ty sub) = ty.
+Proof. apply g_flag_ty. Qed.
+Lemma flag_sub_g ty sub : (ty < 4)%N -> (sub < 64)%N -> flag_sub (g_flag ty sub) = (sub * 4)%N.
+Proof. intros Ht Hs. destruct (flag_roundtrip ty sub Ht Hs) as [_ [H _]]. exact H. Qed.
+
+Lemma dec_blocks_nil wx fuel d : dec_blocks wx fuel d [] = DOk d [].
+Proof. destruct fuel; reflexivity. Qed.
+Lemma dec_blocks_S wx k s f b1 : dec_blocks wx (S k) s (f :: b1) =
+      let t := flag_type f in
+      if (t =? ft_positive)%N then
+        match dec_bins (ds_pos s) (flag_sub f) b1 with
+        | DOk p' rest => dec_blocks wx k {| ds_map := ds_map s; ds_pos := p'; ds_neg := ds_neg s; ds_zero := ds_zero s; ds_stats := ds_stats s |} rest
+        | DErr e => if fD3 wx then DErr e else DOk s []
+        | DPanic => DPanic
+        end
+      else if (t =? ft_negative)%N then
+        match dec_bins (ds_neg s) (flag_sub f) b1 with
+        | DOk n' rest => dec_blocks wx k {| ds_map := ds_map s; ds_pos := ds_pos s; ds_neg := n'; ds_zero := ds_zero s; ds_stats := ds_stats s |} rest
+        | DErr e => if fD3 wx then DErr e else DOk s []
+        | DPanic => DPanic
+        end
+      else if (t =? ft_mapping)%N then
+        match dec_mapping f b1 with
+        | DOk m rest =>
+          match ds_map s with
+          | Some m0 => if map_equals m0 m
+                       then dec_blocks wx k {| ds_map := Some m; ds_pos := ds_pos s; ds_neg := ds_neg s; ds_zero := ds_zero s; ds_stats := ds_stats s |} rest
+                       else DErr EMismatch
+          | None => dec_blocks wx k {| ds_map := Some m; ds_pos := ds_pos s; ds_neg := ds_neg s; ds_zero := ds_zero s; ds_stats := ds_stats s |} rest
+          end
+        | DErr e => DErr e | DPanic => DPanic
+        end
+      else if (f =? flag_zero_count)%N then
+        match dec_count b1 with
+        | Ok z rest => dec_blocks wx k {| ds_map := ds_map s; ds_pos := ds_pos s; ds_neg := ds_neg s; ds_zero := wadd (ds_zero s) z; ds_stats := ds_stats s |} rest
+        | _ => DErr EEof
+        end
+      else
+        match dec_feature wx s f b1 with
+        | DOk s' rest => dec_blocks wx k s' rest
+        | r => r
+        end.
+Proof. reflexivity. Qed.
+Arguments dec_blocks : simpl never.
+
+Lemma dec_blocks_pos wx k s sub b1 : (sub < 64)%N ->
+  dec_blocks wx (S k) s (g_flag TY_POSITIVE sub :: b1) =
+  match dec_bins (ds_pos s) (sub * 4)%N b1 with
+  | DOk p' rest => dec_blocks wx k {| ds_map := ds_map s; ds_pos := p'; ds_neg := ds_neg s; ds_zero := ds_zero s; ds_stats := ds_stats s |} rest
+  | DErr e => if fD3 wx then DErr e else DOk s []
+  | DPanic => DPanic
+  end.
+Proof.
+  intros Hs. rewrite dec_blocks_S. cbv zeta.
+  rewrite flag_type_g, flag_sub_g by (unfold TY_POSITIVE; lia). reflexivity.
+Qed.
+Lemma dec_blocks_neg wx k s sub b1 : (sub < 64)%N ->
+  dec_blocks wx (S k) s (g_flag TY_NEGATIVE sub :: b1) =
+  match dec_bins (ds_neg s) (sub * 4)%N b1 with
+  | DOk n' rest => dec_blocks wx k {| ds_map := ds_map s; ds_pos := ds_pos s; ds_neg := n'; ds_zero := ds_zero s; ds_stats := ds_stats s |} rest
+  | DErr e => if fD3 wx then DErr e else DOk s []
+  | DPanic => DPanic
+  end.
+Proof.
+  intros Hs. rewrite dec_blocks_S. cbv zeta.
+  rewrite flag_type_g, flag_sub_g by (unfold TY_NEGATIVE; lia). reflexivity.
+Qed.
+Lemma dec_blocks_map wx k s kd b1 :
+  dec_blocks wx (S k) s (g_flag TY_MAPPING kd :: b1) =
+  match dec_mapping (g_flag TY_MAPPING kd) b1 with
+  | DOk m rest =>
+    match ds_map s with
+    | Some m0 => if map_equals m0 m
+                 then dec_blocks wx k {| ds_map := Some m; ds_pos := ds_pos s; ds_neg := ds_neg s; ds_zero := ds_zero s; ds_stats := ds_stats s |} rest
+                 else DErr EMismatch
+    | None => dec_blocks wx k {| ds_map := Some m; ds_pos := ds_pos s; ds_neg := ds_neg s; ds_zero := ds_zero s; ds_stats := ds_stats s |} rest
+    end
+  | DErr e => DErr e | DPanic => DPanic
+  end.
+Proof.
+  rewrite dec_blocks_S. cbv zeta. rewrite flag_type_g by (unfold TY_MAPPING; lia). reflexivity.
+Qed.
+Lemma dec_blocks_zc wx k s b1 :
+  dec_blocks wx (S k) s (g_flag TY_FEATURES SUB_ZERO_COUNT :: b1) =
+  match dec_count b1 with
+  | Ok z rest => dec_blocks wx k {| ds_map := ds_map s; ds_pos := ds_pos s; ds_neg := ds_neg s; ds_zero := wadd (ds_zero s) z; ds_stats := ds_stats s |} rest
+  | _ => DErr EEof
+  end.
+Proof. reflexivity. Qed.
+Lemma dec_blocks_feature wx k s sub b1 :
+  sub = SUB_COUNT \/ sub = SUB_SUM \/ sub = SUB_MIN \/ sub = SUB_MAX ->
+  dec_blocks wx (S k) s (g_flag TY_FEATURES sub :: b1) =
+  match dec_feature wx s (g_flag TY_FEATURES sub) b1 with
+  | DOk s' rest => dec_blocks wx k s' rest
+  | r => r
+  end.
+Proof. intros [H|[H|[H|H]]]; subst sub; reflexivity. Qed.
+
+Definition map_of (k : N) (g o : f64) : mapid := {| mk_kind := k; mk_gamma := g; mk_off := o |}.
+Definition kind_ok (k : N) : Prop := k = 0%N \/ k = 1%N \/ k = 3%N.
+Lemma dec_mapping_g kd b : kind_ok kd ->
+  dec_mapping (g_flag TY_MAPPING kd) b =
+  match Varfloat.dec_f64le b with
+  | Ok g b1 => match Varfloat.dec_f64le b1 with
+               | Ok o b2 => if fle g f64_one then DErr EBadGamma else DOk (map_of kd g o) b2
+               | _ => DErr EEof end
+  | _ => DErr EEof
+  end.
+Proof. intros [H|[H|H]]; subst kd; reflexivity. Qed.
+
+(* the plain decoder's treatment of the statistics blocks (fD2 = true: repaired) *)
+Lemma dec_feature_count wx s b : ds_stats s = None -> fD2 wx = true ->
+  dec_feature wx s (g_flag TY_FEATURES SUB_COUNT) b =
+  match Varfloat.dec_vf b with Ok _ rest => DOk s rest | _ => DErr EEof end.
+Proof. intros H1 H2. unfold dec_feature. rewrite H1, H2. reflexivity. Qed.
+Lemma dec_feature_skip8 wx s sub b : ds_stats s = None -> sub = SUB_SUM \/ sub = SUB_MIN \/ sub = SUB_MAX ->
+  dec_feature wx s (g_flag TY_FEATURES sub) b =
+  match skip8 b with DOk _ rest => DOk s rest | DErr e => DErr e | DPanic => DPanic end.
+Proof. intros H1 [H|[H|H]]; subst sub; unfold dec_feature; rewrite H1; reflexivity. Qed.
+Lemma skip8_enc (x : f64) rest : skip8 (Varfloat.enc_f64le x ++ rest) = DOk tt rest.
+Proof.
+  unfold skip8. rewrite app_length, enc_f64_length. cbn [Nat.ltb Nat.leb Nat.add].
+  rewrite skipn_app_len by apply enc_f64_length. reflexivity.
+Qed.
+Lemma skip8_prefix (x : f64) p s : Varfloat.enc_f64le x = p ++ s -> s <> [] -> skip8 p = DErr EEof.
+Proof.
+  intros H Hs. pose proof (enc_f64_length x) as HL. rewrite H, app_length in HL.
+  destruct s as [|c s']; [contradiction|]. cbn [length] in HL. unfold skip8.
+  replace (length p <? 8) with true by (symmetry; apply Nat.ltb_lt; lia). reflexivity.
+Qed.
+
+(* ================================================================== *)
+(* 7. G3 over an abstract store interface                              *)
+(* ================================================================== *)
+Definition okw_bins (okw : W -> Prop) (bb : bin_block) : Prop := Forall (fun x => okw (wire_w x)) (bins_weights bb).
+Definition okw_block (okw : W -> Prop) (b : block) : Prop := match b with BStore _ bb => okw_bins okw bb | _ => True end.
+Definition okw_stream (okw : W -> Prop) (st : stream) : Prop := Forall (okw_block okw) st.
+
+Definition block_ok (cur : option mapid) (b : block) : Prop :=
+  match b with
+  | BMapping k g o => kind_ok k /\ fle g f64_one = false /\
+                      match cur with Some m0 => map_equals m0 (map_of k g o) = true | None => True end
+  | _ => True
+  end.
+Definition block_map (cur : option mapid) (b : block) : option mapid :=
+  match b with BMapping k g o => Some (map_of k g o) | _ => cur end.
+Fixpoint maps_chain (cur : option mapid) (st : stream) : Prop :=
+  match st with
+  | [] => True
+  | b :: tl => block_ok cur b /\ maps_chain (block_map cur b) tl
+  end.
+Definition last_mapid (cur : option mapid) (st : stream) : option mapid := fold_left block_map st cur.
+Definition mapid_triple (m : mapid) : N * f64 * f64 := (mk_kind m, mk_gamma m, mk_off m).
+Lemma last_mapid_triple : forall st cur,
+  option_map mapid_triple (last_mapid cur st) = last_mapping (option_map mapid_triple cur) st.
+Proof.
+  induction st as [|b st IH]; intros cur; [reflexivity|].
+  unfold last_mapid in *. cbn [fold_left]. rewrite IH.
+  destruct b as [w|k g o|neg bb|w|x|x|x]; reflexivity.
+Qed.
+
+Section Refine.
+Variable abs : store -> bins.
+Variable good : store -> Prop.
+Variable okw : W -> Prop.
+Variable step : bins -> Z -> W -> bins.
+Hypothesis Haddw : forall s i c, good s -> okw c ->
+  exists s', st_addw s i c = Some s' /\ good s' /\ abs s' = step (abs s) i c.
+Hypothesis Hadd : forall s i, good s ->
+  exists s', st_add s i = Some s' /\ good s' /\ abs s' = step (abs s) i w1.
+
+Definition steps (a : bins) (l : list (Z * W)) : bins := fold_left (fun acc kw => step acc (fst kw) (snd kw)) l a.
+Lemma steps_app a l1 l2 : steps a (l1 ++ l2) = steps (steps a l1) l2.
+Proof. apply fold_left_app. Qed.
+
+Lemma dec_idc_ser : forall (l : list (Z * f64)) idx s,
+  good s -> Forall (fun dc => i64 (fst dc)) l -> Forall (fun x => okw (wire_w x)) (map snd l) ->
+  exists s', (forall fuel rest, length l <= fuel ->
+                dec_idc_loop fuel (N.of_nat (length l)) idx s
+                  (concat (map (fun dc => enc_sv (fst dc) ++ Varfloat.enc_vf (snd dc)) l) ++ rest) = DOk s' rest)
+             /\ good s' /\ abs s' = steps (abs s) (idc_bins wire_w idx l).
+Proof.
+  induction l as [|[d c] l IH]; intros idx s Hg Hwf Hok.
+  - exists s. split; [|split; [exact Hg|reflexivity]]. intros fuel rest _. rewrite dec_idc_loop_eq. reflexivity.
+  - inversion Hwf as [|x l' Hd Hl]; subst. cbn [fst] in Hd.
+    cbn [map snd] in Hok. inversion Hok as [|x l' Hc Hokl]; subst.
+    destruct (Haddw s (wrap_i64 (idx + d)) (wire_w c) Hg Hc) as [s1 [E1 [G1 A1]]].
+    destruct (IH (wrap_i64 (idx + d)) s1 G1 Hl Hokl) as [s' [E' [G' A']]].
+    exists s'. split; [|split; [exact G'|]].
+    + intros fuel rest Hfuel. destruct fuel as [|f]; [cbn [length] in Hfuel; lia|].
+      cbn [length map concat fst snd]. rewrite dec_idc_loop_eq, of_nat_S_eqb.
+      rewrite <- !app_assoc. rewrite dec_sv_enc by exact Hd. rewrite dec_count_enc, E1.
+      rewrite of_nat_S_pred. apply E'. cbn [length] in Hfuel. lia.
+    + rewrite A'. cbn [idc_bins fst snd]. cbv zeta. unfold steps at 2. cbn [fold_left fst snd]. rewrite A1. reflexivity.
+Qed.
+Lemma dec_id_ser : forall (l : list Z) idx s,
+  good s -> Forall i64 l ->
+  exists s', (forall fuel rest, length l <= fuel ->
+                dec_id_loop fuel (N.of_nat (length l)) idx s (concat (map enc_sv l) ++ rest) = DOk s' rest)
+             /\ good s' /\ abs s' = steps (abs s) (id_bins idx l).
+Proof.
+  induction l as [|d l IH]; intros idx s Hg Hwf.
+  - exists s. split; [|split; [exact Hg|reflexivity]]. intros fuel rest _. rewrite dec_id_loop_eq. reflexivity.
+  - inversion Hwf as [|x l' Hd Hl]; subst.
+    destruct (Hadd s (wrap_i64 (idx + d)) Hg) as [s1 [E1 [G1 A1]]].
+    destruct (IH (wrap_i64 (idx + d)) s1 G1 Hl) as [s' [E' [G' A']]].
+    exists s'. split; [|split; [exact G'|]].
+    + intros fuel rest Hfuel. destruct fuel as [|f]; [cbn [length] in Hfuel; lia|].
+      cbn [length map concat]. rewrite dec_id_loop_eq, of_nat_S_eqb.
+      rewrite <- !app_assoc. rewrite dec_sv_enc by exact Hd. rewrite E1.
+      rewrite of_nat_S_pred. apply E'. cbn [length] in Hfuel. lia.
+    + rewrite A'. cbn [id_bins]. cbv zeta. unfold steps at 2. cbn [fold_left fst snd]. rewrite A1. reflexivity.
+Qed.
+Lemma dec_cc_ser stride : forall (l : list f64) idx s,
+  good s -> Forall (fun x => okw (wire_w x)) l ->
+  exists s', (forall fuel rest, length l <= fuel ->
+                dec_cc_loop fuel (N.of_nat (length l)) idx stride s (concat (map Varfloat.enc_vf l) ++ rest) = DOk s' rest)
+             /\ good s' /\ abs s' = steps (abs s) (cc_bins wire_w idx stride l).
+Proof.
+  induction l as [|c l IH]; intros idx s Hg Hok.
+  - exists s. split; [|split; [exact Hg|reflexivity]]. intros fuel rest _. rewrite dec_cc_loop_eq. reflexivity.
+  - inversion Hok as [|x l' Hc Hokl]; subst.
+    destruct (Haddw s idx (wire_w c) Hg Hc) as [s1 [E1 [G1 A1]]].
+    destruct (IH (wrap_i64 (idx + stride)) s1 G1 Hokl) as [s' [E' [G' A']]].
+    exists s'. split; [|split; [exact G'|]].
+    + intros fuel rest Hfuel. destruct fuel as [|f]; [cbn [length] in Hfuel; lia|].
+      cbn [length map concat]. rewrite dec_cc_loop_eq, of_nat_S_eqb.
+      rewrite <- !app_assoc. rewrite dec_count_enc, E1.
+      rewrite of_nat_S_pred. apply E'. cbn [length] in Hfuel. lia.
+    + rewrite A'. cbn [cc_bins]. unfold steps at 2. cbn [fold_left fst snd]. rewrite A1. reflexivity.
+Qed.
+
+(* G3, bins of one block, generic decoder of store.go *)
+Theorem dec_bins_generic_ser bb s : wf_bins bb -> good s -> okw_bins okw bb ->
+  exists s', (forall rest, dec_bins_generic s (fst (ser_bins bb) * 4)%N (snd (ser_bins bb) ++ rest) = DOk s' rest)
+             /\ good s' /\ abs s' = steps (abs s) (bins_of_block bb).
+Proof.
+  intros Hwf Hg Hok. rewrite bins_of_block_eq. unfold okw_bins in Hok.
+  destruct bb as [l|l|first stride l]; cbn [ser_bins fst snd bins_of_block_w bins_weights] in *.
+  - destruct Hwf as [Hlen Hd]. destruct (dec_idc_ser l 0%Z s Hg Hd Hok) as [s' [E [G A]]].
+    exists s'. split; [|split; assumption]. intros rest. unfold dec_bins_generic.
+    change (SUB_BINS_IDC * 4 =? sub_idx_deltas_counts)%N with true. cbv iota.
+    rewrite <- app_assoc. rewrite dec_uv_enc by exact Hlen. apply E.
+    rewrite app_length. pose proof (concat_length_ge _ l enc_dc_nonempty). unfold Varfloat.f64, f64 in *. lia.
+  - destruct Hwf as [Hlen Hd]. destruct (dec_id_ser l 0%Z s Hg Hd) as [s' [E [G A]]].
+    exists s'. split; [|split; assumption]. intros rest. unfold dec_bins_generic.
+    change (SUB_BINS_ID * 4 =? sub_idx_deltas_counts)%N with false.
+    change (SUB_BINS_ID * 4 =? sub_idx_deltas)%N with true. cbv iota.
+    rewrite <- app_assoc. rewrite dec_uv_enc by exact Hlen. apply E.
+    rewrite app_length. pose proof (concat_length_ge _ l enc_sv_nonempty). lia.
+  - destruct Hwf as [Hlen [Hf Hst]]. destruct (dec_cc_ser stride l first s Hg Hok) as [s' [E [G A]]].
+    exists s'. split; [|split; assumption]. intros rest. unfold dec_bins_generic.
+    change (SUB_BINS_CC * 4 =? sub_idx_deltas_counts)%N with false.
+    change (SUB_BINS_CC * 4 =? sub_idx_deltas)%N with false.
+    change (SUB_BINS_CC * 4 =? sub_contiguous)%N with true. cbv iota.
+    rewrite <- !app_assoc. rewrite dec_uv_enc by exact Hlen.
+    rewrite dec_sv_enc by exact Hf. rewrite dec_sv_enc by exact Hst. apply E.
+    rewrite app_length. pose proof (concat_length_ge _ l enc_vf_nonempty). unfold Varfloat.f64, f64 in *. lia.
+Qed.
+
+(* G5, bins of one block: a truncated body gives io.EOF, never a panic *)
+Lemma dec_idc_trunc : forall (l : list (Z * f64)) fuel p t idx s,
+  good s -> Forall (fun dc => i64 (fst dc)) l -> Forall (fun x => okw (wire_w x)) (map snd l) ->
+  concat (map (fun dc => enc_sv (fst dc) ++ Varfloat.enc_vf (snd dc)) l) = p ++ t -> t <> [] ->
+  dec_idc_loop fuel (N.of_nat (length l)) idx s p = DErr EEof.
+Proof.
+  induction l as [|[d c] l IH]; intros fuel p t idx s Hg Hwf Hok H Ht.
+  - cbn [map concat] in H. symmetry in H. apply app_eq_nil in H. destruct H as [_ H]. contradiction.
+  - inversion Hwf as [|x l' Hd Hl]; subst. cbn [fst] in Hd.
+    cbn [map snd] in Hok. inversion Hok as [|x l' Hc Hokl]; subst.
+    cbn [length]. rewrite dec_idc_loop_eq, of_nat_S_eqb. destruct fuel as [|f]; [reflexivity|].
+    rewrite of_nat_S_pred. cbn [map concat fst snd] in H. rewrite <- app_assoc in H.
+    destruct (prefix_split _ _ _ _ H Ht) as [[l0 [Hl0 H1]]|[q [H1 H2]]].
+    + rewrite (dec_sv_prefix _ _ _ H1 Hl0). reflexivity.
+    + subst p. rewrite dec_sv_enc by exact Hd.
+      destruct (prefix_split _ _ _ _ H2 Ht) as [[l0 [Hl0 H3]]|[q' [H3 H4]]].
+      * rewrite (dec_count_prefix _ _ _ H3 Hl0). reflexivity.
+      * subst q. rewrite dec_count_enc.
+        destruct (Haddw s (wrap_i64 (idx + d)) (wire_w c) Hg Hc) as [s1 [E1 [G1 A1]]]. rewrite E1.
+        apply (IH f q' t _ s1 G1 Hl Hokl H4 Ht).
+Qed.
+Lemma dec_id_trunc : forall (l : list Z) fuel p t idx s,
+  good s -> Forall i64 l -> concat (map enc_sv l) = p ++ t -> t <> [] ->
+  dec_id_loop fuel (N.of_nat (length l)) idx s p = DErr EEof.
+Proof.
+  induction l as [|d l IH]; intros fuel p t idx s Hg Hwf H Ht.
+  - cbn [map concat] in H. symmetry in H. apply app_eq_nil in H. destruct H as [_ H]. contradiction.
+  - inversion Hwf as [|x l' Hd Hl]; subst.
+    cbn [length]. rewrite dec_id_loop_eq, of_nat_S_eqb. destruct fuel as [|f]; [reflexivity|].
+    rewrite of_nat_S_pred. cbn [map concat] in H.
+    destruct (prefix_split _ _ _ _ H Ht) as [[l0 [Hl0 H1]]|[q [H1 H2]]].
+    + rewrite (dec_sv_prefix _ _ _ H1 Hl0). reflexivity.
+    + subst p. rewrite dec_sv_enc by exact Hd.
+      destruct (Hadd s (wrap_i64 (idx + d)) Hg) as [s1 [E1 [G1 A1]]]. rewrite E1.
+      apply (IH f q t _ s1 G1 Hl H2 Ht).
+Qed.
+Lemma dec_cc_trunc stride : forall (l : list f64) fuel p t idx s,
+  good s -> Forall (fun x => okw (wire_w x)) l -> concat (map Varfloat.enc_vf l) = p ++ t -> t <> [] ->
+  dec_cc_loop fuel (N.of_nat (length l)) idx stride s p = DErr EEof.
+Proof.
+  induction l as [|c l IH]; intros fuel p t idx s Hg Hok H Ht.
+  - cbn [map concat] in H. symmetry in H. apply app_eq_nil in H. destruct H as [_ H]. contradiction.
+  - inversion Hok as [|x l' Hc Hokl]; subst.
+    cbn [length]. rewrite dec_cc_loop_eq, of_nat_S_eqb. destruct fuel as [|f]; [reflexivity|].
+    rewrite of_nat_S_pred. cbn [map concat] in H.
+    destruct (prefix_split _ _ _ _ H Ht) as [[l0 [Hl0 H1]]|[q [H1 H2]]].
+    + rewrite (dec_count_prefix _ _ _ H1 Hl0). reflexivity.
+    + subst p. rewrite dec_count_enc.
+      destruct (Haddw s idx (wire_w c) Hg Hc) as [s1 [E1 [G1 A1]]]. rewrite E1.
+      apply (IH f q t _ s1 G1 Hokl H2 Ht).
+Qed.
+Theorem dec_bins_generic_trunc bb s p t : wf_bins bb -> good s -> okw_bins okw bb ->
+  snd (ser_bins bb) = p ++ t -> t <> [] ->
+  dec_bins_generic s (fst (ser_bins bb) * 4)%N p = DErr EEof.
+Proof.
+  intros Hwf Hg Hok H Ht. unfold okw_bins in Hok.
+  destruct bb as [l|l|first stride l]; cbn [ser_bins fst snd bins_weights] in *; unfold dec_bins_generic.
+  - destruct Hwf as [Hlen Hd].
+    change (SUB_BINS_IDC * 4 =? sub_idx_deltas_counts)%N with true. cbv iota.
+    destruct (prefix_split _ _ _ _ H Ht) as [[l0 [Hl0 H1]]|[q [H1 H2]]].
+    + rewrite (dec_uv_prefix _ _ _ H1 Hl0). reflexivity.
+    + subst p. rewrite dec_uv_enc by exact Hlen. apply (dec_idc_trunc l _ q t _ s Hg Hd Hok H2 Ht).
+  - destruct Hwf as [Hlen Hd].
+    change (SUB_BINS_ID * 4 =? sub_idx_deltas_counts)%N with false.
+    change (SUB_BINS_ID * 4 =? sub_idx_deltas)%N with true. cbv iota.
+    destruct (prefix_split _ _ _ _ H Ht) as [[l0 [Hl0 H1]]|[q [H1 H2]]].
+    + rewrite (dec_uv_prefix _ _ _ H1 Hl0). reflexivity.
+    + subst p. rewrite dec_uv_enc by exact Hlen. apply (dec_id_trunc l _ q t _ s Hg Hd H2 Ht).
+  - destruct Hwf as [Hlen [Hf Hst]].
+    change (SUB_BINS_CC * 4 =? sub_idx_deltas_counts)%N with false.
+    change (SUB_BINS_CC * 4 =? sub_idx_deltas)%N with false.
+    change (SUB_BINS_CC * 4 =? sub_contiguous)%N with true. cbv iota.
+    destruct (prefix_split _ _ _ _ H Ht) as [[l0 [Hl0 H1]]|[q [H1 H2]]].
+    + rewrite (dec_uv_prefix _ _ _ H1 Hl0). reflexivity.
+    + subst p. rewrite dec_uv_enc by exact Hlen.
+      destruct (prefix_split _ _ _ _ H2 Ht) as [[l0 [Hl0 H3]]|[q1 [H3 H4]]].
+      * rewrite (dec_sv_prefix _ _ _ H3 Hl0). reflexivity.
+      * subst q. rewrite dec_sv_enc by exact Hf.
+        destruct (prefix_split _ _ _ _ H4 Ht) as [[l0 [Hl0 H5]]|[q2 [H5 H6]]].
+        -- rewrite (dec_sv_prefix _ _ _ H5 Hl0). reflexivity.
+        -- subst q1. rewrite dec_sv_enc by exact Hst. apply (dec_cc_trunc stride l _ q2 t _ s Hg Hok H6 Ht).
+Qed.
+(* ---- the block loop of ddsketch.go over the same interface ---- *)
+Variable wx : wfixes.
+Hypothesis HD2 : fD2 wx = true.
+Hypothesis Hnp : forall s sub b, good s -> dec_bins s sub b = dec_bins_generic s sub b.
+
+Definition ds_good (d : dsketch) : Prop := good (ds_pos d) /\ good (ds_neg d) /\ ds_stats d = None.
+Definition ds_rel (d d' : dsketch) (pos neg : list (Z * W)) (zero : list W) (mp : option mapid) : Prop :=
+  ds_good d' /\ abs (ds_pos d') = steps (abs (ds_pos d)) pos /\ abs (ds_neg d') = steps (abs (ds_neg d)) neg
+  /\ ds_zero d' = fold_left wadd zero (ds_zero d) /\ ds_map d' = mp.
+
+Lemma ser_bins_sub_lt bb : (fst (ser_bins bb) < 64)%N.
+Proof. destruct bb; cbn [ser_bins fst]; unfold SUB_BINS_IDC, SUB_BINS_ID, SUB_BINS_CC; lia. Qed.
+
+Lemma dec_blocks_step b d : wf_block b -> block_ok (ds_map d) b -> okw_block okw b -> ds_good d ->
+  exists d', (forall k rest, dec_blocks wx (S k) d (ser_block b ++ rest) = dec_blocks wx k d' rest)
+             /\ ds_rel d d' (block_pos_bins b) (block_neg_bins b) (block_zero b) (block_map (ds_map d) b).
+Proof.
+  intros Hwf Hbo Hokw [Hgp [Hgn Hst]].
+  destruct b as [w|kd g o|neg bb|w|x|x|x].
+  - eexists. split.
+    + intros k rest. cbn [ser_block]. rewrite <- app_comm_cons. rewrite dec_blocks_zc, dec_count_enc. reflexivity.
+    + repeat split; cbn; assumption || reflexivity.
+  - destruct Hbo as [Hk [Hfle Heq]]. eexists. split.
+    + intros k rest. cbn [ser_block]. rewrite <- app_comm_cons, <- app_assoc.
+      rewrite dec_blocks_map, dec_mapping_g by exact Hk. rewrite !dec_f64_enc, Hfle.
+      destruct (ds_map d) as [m0|]; [rewrite Heq|]; reflexivity.
+    + repeat split; cbn; assumption || reflexivity.
+  - cbn [wf_block okw_block] in Hwf, Hokw. destruct neg.
+    + destruct (dec_bins_generic_ser bb (ds_neg d) Hwf Hgn Hokw) as [s' [E [G A]]].
+      eexists. split.
+      * intros k rest. rewrite ser_block_store, <- app_comm_cons.
+        rewrite dec_blocks_neg by apply ser_bins_sub_lt. rewrite Hnp by exact Hgn. rewrite E. reflexivity.
+      * repeat split; cbn; assumption || reflexivity.
+    + destruct (dec_bins_generic_ser bb (ds_pos d) Hwf Hgp Hokw) as [s' [E [G A]]].
+      eexists. split.
+      * intros k rest. rewrite ser_block_store, <- app_comm_cons.
+        rewrite dec_blocks_pos by apply ser_bins_sub_lt. rewrite Hnp by exact Hgp. rewrite E. reflexivity.
+      * repeat split; cbn; assumption || reflexivity.
+  - exists d. split.
+    + intros k rest. cbn [ser_block]. rewrite <- app_comm_cons.
+      rewrite dec_blocks_feature by auto. rewrite dec_feature_count by assumption. rewrite dec_vf_enc. reflexivity.
+    + repeat split; cbn; assumption || reflexivity.
+  - exists d. split.
+    + intros k rest. cbn [ser_block]. rewrite <- app_comm_cons.
+      rewrite dec_blocks_feature by auto. rewrite dec_feature_skip8 by auto. rewrite skip8_enc. reflexivity.
+    + repeat split; cbn; assumption || reflexivity.
+  - exists d. split.
+    + intros k rest. cbn [ser_block]. rewrite <- app_comm_cons.
+      rewrite dec_blocks_feature by auto. rewrite dec_feature_skip8 by auto. rewrite skip8_enc. reflexivity.
+    + repeat split; cbn; assumption || reflexivity.
+  - exists d. split.
+    + intros k rest. cbn [ser_block]. rewrite <- app_comm_cons.
+      rewrite dec_blocks_feature by auto. rewrite dec_feature_skip8 by auto. rewrite skip8_enc. reflexivity.
+    + repeat split; cbn; assumption || reflexivity.
+Qed.
+
+Definition ds_rel_st (d d' : dsketch) (st : stream) : Prop :=
+  ds_rel d d' (stream_pos_bins st) (stream_neg_bins st) (stream_zero st) (last_mapid (ds_map d) st).
+
+Lemma dec_blocks_ser : forall st d, wf_stream st -> okw_stream okw st -> maps_chain (ds_map d) st -> ds_good d ->
+  exists d', (forall k rest, dec_blocks wx (length st + k) d (serialize st ++ rest) = dec_blocks wx k d' rest)
+             /\ ds_rel_st d d' st.
+Proof.
+  induction st as [|b st IH]; intros d Hwf Hokw Hch Hg.
+  - exists d. split; [intros; reflexivity|]. repeat split; try apply Hg; reflexivity.
+  - inversion Hwf as [|x l Hb Hst]; subst. inversion Hokw as [|x l Hob Host]; subst.
+    destruct Hch as [Hbo Hch].
+    destruct (dec_blocks_step b d Hb Hbo Hob Hg) as [d1 [E1 [G1 [P1 [N1 [Z1 M1]]]]]].
+    rewrite <- M1 in Hch.
+    destruct (IH d1 Hst Host Hch G1) as [d' [E' [G' [P' [N' [Z' M']]]]]].
+    exists d'. split.
+    + intros k rest. rewrite serialize_cons, <- app_assoc. cbn [length Nat.add]. rewrite E1. apply E'.
+    + unfold ds_rel_st, ds_rel. split; [exact G'|].
+      unfold stream_pos_bins, stream_neg_bins, stream_zero, last_mapid. cbn [map concat fold_left].
+      rewrite !steps_app, fold_left_app. rewrite <- P1, <- N1, <- Z1, <- M1. auto.
+Qed.
+
+(* G3: DecodeAndMergeWith of a whole serialised stream *)
+Theorem dec_sketch_ser st d : wf_stream st -> okw_stream okw st -> maps_chain (ds_map d) st -> ds_good d ->
+  last_mapid (ds_map d) st <> None ->
+  exists d', dec_sketch_into wx d (serialize st) = DOk d' [] /\ ds_rel_st d d' st.
+Proof.
+  intros Hwf Hokw Hch Hg Hm.
+  destruct (dec_blocks_ser st d Hwf Hokw Hch Hg) as [d' [E R]]. exists d'. split; [|exact R].
+  unfold dec_sketch_into. pose proof (serialize_length_ge st) as HL.
+  replace (S (length (serialize st))) with (length st + (S (length (serialize st)) - length st)) by lia.
+  rewrite <- (app_nil_r (serialize st)) at 2. rewrite E, dec_blocks_nil.
+  destruct R as [[_ [_ Hs]] [_ [_ [_ M]]]]. rewrite M, Hs.
+  destruct (last_mapid (ds_map d) st); [reflexivity|contradiction].
+Qed.
+(* G5: no mapping anywhere *)
+Theorem dec_sketch_missing_mapping st d : wf_stream st -> okw_stream okw st -> maps_chain (ds_map d) st -> ds_good d ->
+  last_mapid (ds_map d) st = None ->
+  dec_sketch_into wx d (serialize st) = DErr EMissingMapping.
+Proof.
+  intros Hwf Hokw Hch Hg Hm.
+  destruct (dec_blocks_ser st d Hwf Hokw Hch Hg) as [d' [E R]].
+  unfold dec_sketch_into. pose proof (serialize_length_ge st) as HL.
+  replace (S (length (serialize st))) with (length st + (S (length (serialize st)) - length st)) by lia.
+  rewrite <- (app_nil_r (serialize st)) at 2. rewrite E, dec_blocks_nil.
+  destruct R as [_ [_ [_ [_ M]]]]. rewrite M, Hm. reflexivity.
+Qed.
+
+(* G5: a mapping block that differs from the receiver's mapping *)
+Lemma dec_blocks_mismatch1 d kd g o m0 k rest :
+  kind_ok kd -> fle g f64_one = false -> ds_map d = Some m0 -> map_equals m0 (map_of kd g o) = false ->
+  dec_blocks wx (S k) d (ser_block (BMapping kd g o) ++ rest) = DErr EMismatch.
+Proof.
+  intros Hk Hfle Hm Heq. cbn [ser_block]. rewrite <- app_comm_cons, <- app_assoc.
+  rewrite dec_blocks_map, dec_mapping_g by exact Hk. rewrite !dec_f64_enc, Hfle, Hm, Heq. reflexivity.
+Qed.
+Theorem dec_sketch_mapping_mismatch st d kd g o m0 rest :
+  wf_stream st -> okw_stream okw st -> maps_chain (ds_map d) st -> ds_good d ->
+  last_mapid (ds_map d) st = Some m0 ->
+  kind_ok kd -> fle g f64_one = false -> map_equals m0 (map_of kd g o) = false ->
+  dec_sketch_into wx d (serialize st ++ ser_block (BMapping kd g o) ++ rest) = DErr EMismatch.
+Proof.
+  intros Hwf Hokw Hch Hg Hm Hk Hfle Heq.
+  destruct (dec_blocks_ser st d Hwf Hokw Hch Hg) as [d' [E [_ [_ [_ [_ M]]]]]].
+  unfold dec_sketch_into. pose proof (serialize_length_ge st) as HL.
+  set (bytes := serialize st ++ ser_block (BMapping kd g o) ++ rest).
+  assert (HB : length st + 1 <= length bytes).
+  { unfold bytes. rewrite !app_length. cbn [ser_block length]. lia. }
+  replace (S (length bytes)) with (length st + S (length bytes - length st)) by lia.
+  unfold bytes. rewrite E. rewrite (dec_blocks_mismatch1 d' kd g o m0); auto. congruence.
+Qed.
+
+(* G5: a block cut strictly inside gives io.EOF (repaired code: fD3) *)
+Hypothesis HD3 : fD3 wx = true.
+Definition kind_ok_block (b : block) : Prop := match b with BMapping k _ _ => kind_ok k | _ => True end.
+
+Lemma dec_blocks_trunc1 b d p t k : wf_block b -> kind_ok_block b -> okw_block okw b -> ds_good d ->
+  ser_block b = p ++ t -> t <> [] -> p <> [] -> dec_blocks wx (S k) d p = DErr EEof.
+Proof.
+  intros Hwf Hk Hokw [Hgp [Hgn Hst]] H Ht Hp. destruct p as [|f p']; [contradiction|]. clear Hp.
+  destruct b as [w|kd g o|neg bb|w|x|x|x].
+  - cbn [ser_block] in H. rewrite <- app_comm_cons in H. apply cons_inj in H. destruct H as [Hf H]. subst f.
+    rewrite dec_blocks_zc. rewrite (dec_count_prefix _ _ _ H Ht). reflexivity.
+  - cbn [ser_block] in H. rewrite <- app_comm_cons in H. apply cons_inj in H. destruct H as [Hf H]. subst f.
+    rewrite dec_blocks_map, dec_mapping_g by exact Hk.
+    destruct (prefix_split _ _ _ _ H Ht) as [[l0 [Hl0 H1]]|[q [H1 H2]]].
+    + rewrite (dec_f64_prefix _ _ _ H1 Hl0). reflexivity.
+    + subst p'. rewrite dec_f64_enc. rewrite (dec_f64_prefix _ _ _ H2 Ht). reflexivity.
+  - rewrite ser_block_store in H. rewrite <- app_comm_cons in H. apply cons_inj in H. destruct H as [Hf H]. subst f.
+    cbn [wf_block okw_block] in Hwf, Hokw. destruct neg.
+    + rewrite dec_blocks_neg by apply ser_bins_sub_lt. rewrite Hnp by exact Hgn.
+      rewrite (dec_bins_generic_trunc bb (ds_neg d) p' t Hwf Hgn Hokw H Ht). rewrite HD3. reflexivity.
+    + rewrite dec_blocks_pos by apply ser_bins_sub_lt. rewrite Hnp by exact Hgp.
+      rewrite (dec_bins_generic_trunc bb (ds_pos d) p' t Hwf Hgp Hokw H Ht). rewrite HD3. reflexivity.
+  - cbn [ser_block] in H. rewrite <- app_comm_cons in H. apply cons_inj in H. destruct H as [Hf H]. subst f.
+    rewrite dec_blocks_feature by auto. rewrite dec_feature_count by assumption.
+    rewrite (dec_vf_prefix _ _ _ H Ht). reflexivity.
+  - cbn [ser_block] in H. rewrite <- app_comm_cons in H. apply cons_inj in H. destruct H as [Hf H]. subst f.
+    rewrite dec_blocks_feature by auto. rewrite dec_feature_skip8 by auto.
+    rewrite (skip8_prefix _ _ _ H Ht). reflexivity.
+  - cbn [ser_block] in H. rewrite <- app_comm_cons in H. apply cons_inj in H. destruct H as [Hf H]. subst f.
+    rewrite dec_blocks_feature by auto. rewrite dec_feature_skip8 by auto.
+    rewrite (skip8_prefix _ _ _ H Ht). reflexivity.
+  - cbn [ser_block] in H. rewrite <- app_comm_cons in H. apply cons_inj in H. destruct H as [Hf H]. subst f.
+    rewrite dec_blocks_feature by auto. rewrite dec_feature_skip8 by auto.
+    rewrite (skip8_prefix _ _ _ H Ht). reflexivity.
+Qed.
+
+Theorem dec_blocks_truncation st b d p t k :
+  wf_stream st -> okw_stream okw st -> maps_chain (ds_map d) st -> ds_good d ->
+  wf_block b -> kind_ok_block b -> okw_block okw b ->
+  ser_block b = p ++ t -> t <> [] -> p <> [] ->
+  dec_blocks wx (length st + S k) d (serialize st ++ p) = DErr EEof.
+Proof.
+  intros Hwf Hokw Hch Hg Hb Hk Hob H Ht Hp.
+  destruct (dec_blocks_ser st d Hwf Hokw Hch Hg) as [d' [E [G _]]].
+  rewrite E. eapply dec_blocks_trunc1; eauto.
+Qed.
+Theorem dec_sketch_truncation st b d p t :
+  wf_stream st -> okw_stream okw st -> maps_chain (ds_map d) st -> ds_good d ->
+  wf_block b -> kind_ok_block b -> okw_block okw b ->
+  ser_block b = p ++ t -> t <> [] -> p <> [] ->
+  dec_sketch_into wx d (serialize st ++ p) = DErr EEof.
+Proof.
+  intros Hwf Hokw Hch Hg Hb Hk Hob H Ht Hp. unfold dec_sketch_into.
+  pose proof (serialize_length_ge st) as HL.
+  assert (HP : 1 <= length p) by (destruct p; [contradiction|cbn [length]; lia]).
+  replace (S (length (serialize st ++ p))) with (length st + S (length (serialize st ++ p) - length st))
+    by (rewrite app_length; lia).
+  rewrite (dec_blocks_truncation st b d p t _ Hwf Hokw Hch Hg Hb Hk Hob H Ht Hp). reflexivity.
+Qed.
+End Refine.
+(* ================================================================== *)
+(* 8. The sparse store instance (Layer A already)                      *)
+(* ================================================================== *)
+Definition ss_bins (s : store) : bins := match s with SS m => m | _ => [] end.
+Definition is_sparse (s : store) : Prop := exists m, s = SS m.
+Definition any_w (_ : W) : Prop := True.
+
+Lemma sparse_addw s i c : is_sparse s -> any_w c ->
+  exists s', st_addw s i c = Some s' /\ is_sparse s' /\ ss_bins s' = badd0 (ss_bins s) i c.
+Proof. intros [m ->] _. eexists. split; [reflexivity|]. split; [eexists; reflexivity|reflexivity]. Qed.
+Lemma sparse_add s i : is_sparse s ->
+  exists s', st_add s i = Some s' /\ is_sparse s' /\ ss_bins s' = badd0 (ss_bins s) i w1.
+Proof. intros [m ->]. eexists. split; [reflexivity|]. split; [eexists; reflexivity|reflexivity]. Qed.
+Lemma sparse_np s sub b : is_sparse s -> dec_bins s sub b = dec_bins_generic s sub b.
+Proof. intros [m ->]. reflexivity. Qed.
+Lemma steps_badd0 a l : steps badd0 a l = bmerge_list a l.
+Proof. reflexivity. Qed.
+Lemma any_w_bins bb : okw_bins any_w bb.
+Proof. unfold okw_bins. apply Forall_forall. intros; exact I. Qed.
+Lemma any_w_stream st : okw_stream any_w st.
+Proof. apply Forall_forall. intros b _. destruct b; try exact I. apply any_w_bins. Qed.
+
+(* G3, sparse: the generic decoder of store.go on the body of a bins block *)
+Theorem sparse_dec_bins bb m rest : wf_bins bb ->
+  dec_bins_generic (SS m) (fst (ser_bins bb) * 4)%N (snd (ser_bins bb) ++ rest)
+  = DOk (SS (bmerge_list m (bins_of_block bb))) rest.
+Proof.
+  intros Hwf.
+  destruct (dec_bins_generic_ser ss_bins is_sparse any_w badd0 sparse_addw sparse_add bb (SS m) Hwf
+              (ex_intro _ m eq_refl) (any_w_bins bb)) as [s' [E [[m' ->] A]]].
+  rewrite E. cbn [ss_bins] in A. rewrite steps_badd0 in A. rewrite A. reflexivity.
+Qed.
+Theorem sparse_dec_bins_trunc bb m p t : wf_bins bb -> snd (ser_bins bb) = p ++ t -> t <> [] ->
+  dec_bins_generic (SS m) (fst (ser_bins bb) * 4)%N p = DErr EEof.
+Proof.
+  intros Hwf H Ht.
+  exact (dec_bins_generic_trunc ss_bins is_sparse any_w badd0 sparse_addw sparse_add bb (SS m) p t Hwf
+           (ex_intro _ m eq_refl) (any_w_bins bb) H Ht).
+Qed.
+
+Definition sp_ds (mp : option mapid) (p n : bins) (z : W) : dsketch :=
+  {| ds_map := mp; ds_pos := SS p; ds_neg := SS n; ds_zero := z; ds_stats := None |}.
+Lemma sp_ds_good mp p n z : ds_good is_sparse (sp_ds mp p n z).
+Proof. split; [eexists; reflexivity|]. split; [eexists; reflexivity|reflexivity]. Qed.
+Lemma ds_fresh_sparse mp : ds_fresh mp KSparse false = sp_ds mp [] [] w0.
+Proof. reflexivity. Qed.
+
+Lemma sp_ds_of_rel d mp p n z pos neg zero mp' :
+  ds_rel ss_bins is_sparse badd0 (sp_ds mp p n z) d pos neg zero mp' ->
+  d = sp_ds mp' (bmerge_list p pos) (bmerge_list n neg) (fold_left wadd zero z).
+Proof.
+  intros [[[mp1 Hp] [[mn1 Hn] Hs]] [P [N [Z M]]]]. destruct d as [dm dp dn dz dst]. cbn in *. subst.
+  cbn [ss_bins] in *. rewrite steps_badd0 in *. subst. reflexivity.
+Qed.
+
+(* G3: the plain decoder (repaired, fD2) on a serialised stream, sparse receiver *)
+Theorem sparse_dec_sketch wx st mp p n z : fD2 wx = true ->
+  wf_stream st -> maps_chain mp st -> last_mapid mp st <> None ->
+  dec_sketch_into wx (sp_ds mp p n z) (serialize st)
+  = DOk (sp_ds (last_mapid mp st) (bmerge_list p (stream_pos_bins st)) (bmerge_list n (stream_neg_bins st))
+               (fold_left wadd (stream_zero st) z)) [].
+Proof.
+  intros HD2 Hwf Hch Hm.
+  destruct (dec_sketch_ser ss_bins is_sparse any_w badd0 sparse_addw sparse_add wx HD2 sparse_np st
+              (sp_ds mp p n z) Hwf (any_w_stream st) Hch (sp_ds_good mp p n z) Hm) as [d' [E R]].
+  rewrite E. apply sp_ds_of_rel in R. rewrite R. reflexivity.
+Qed.
+Lemma sparse_dec_blocks wx st mp p n z k rest : fD2 wx = true ->
+  wf_stream st -> maps_chain mp st ->
+  dec_blocks wx (length st + k) (sp_ds mp p n z) (serialize st ++ rest)
+  = dec_blocks wx k (sp_ds (last_mapid mp st) (bmerge_list p (stream_pos_bins st)) (bmerge_list n (stream_neg_bins st))
+                           (fold_left wadd (stream_zero st) z)) rest.
+Proof.
+  intros HD2 Hwf Hch.
+  destruct (dec_blocks_ser ss_bins is_sparse any_w badd0 sparse_addw sparse_add wx HD2 sparse_np st
+              (sp_ds mp p n z) Hwf (any_w_stream st) Hch (sp_ds_good mp p n z)) as [d' [E R]].
+  rewrite E. apply sp_ds_of_rel in R. rewrite R. reflexivity.
+Qed.
+
+Theorem sparse_decode_fresh wx st : fD2 wx = true ->
+  wf_stream st -> maps_chain None st -> last_mapid None st <> None ->
+  exists d, dec_sketch_into wx (ds_fresh None KSparse false) (serialize st) = DOk d []
+            /\ ds_pos d = SS (c_pos (sem st)) /\ ds_neg d = SS (c_neg (sem st))
+            /\ ds_zero d = c_zero (sem st) /\ option_map mapid_triple (ds_map d) = c_map (sem st)
+            /\ ds_stats d = None.
+Proof.
+  intros HD2 Hwf Hch Hm. eexists. split.
+  - rewrite ds_fresh_sparse. apply sparse_dec_sketch; assumption.
+  - unfold sem. rewrite sem_from_pos, sem_from_neg, sem_from_zero, sem_from_map. cbn [sp_ds ds_pos ds_neg ds_zero ds_map ds_stats c_empty c_pos c_neg c_zero c_map].
+    repeat split. apply (last_mapid_triple st None).
+Qed.
+
+(* the same through the abstraction function of the stores, for non-negative weights *)
+Lemma st_abs_sparse m : st_abs (SS m) = bins_of_list m.
+Proof. reflexivity. Qed.
+Lemma st_abs_sparse_canon l : nonneg l -> st_abs (SS (bins_of_list l)) = bins_of_list l.
+Proof.
+  intros H. rewrite st_abs_sparse. apply bins_of_list_canon; [apply wf_bins_of_list|apply pos_bins_of_list]; exact H.
+Qed.
+Definition nonneg_stream (st : stream) : Prop := nonneg (stream_pos_bins st) /\ nonneg (stream_neg_bins st).
+Theorem sparse_decode_fresh_abs wx st : fD2 wx = true ->
+  wf_stream st -> maps_chain None st -> last_mapid None st <> None -> nonneg_stream st ->
+  exists d, dec_sketch_into wx (ds_fresh None KSparse false) (serialize st) = DOk d []
+            /\ st_abs (ds_pos d) = c_pos (sem st) /\ st_abs (ds_neg d) = c_neg (sem st)
+            /\ ds_zero d = c_zero (sem st) /\ option_map mapid_triple (ds_map d) = c_map (sem st).
+Proof.
+  intros HD2 Hwf Hch Hm [Hp Hn].
+  destruct (sparse_decode_fresh wx st HD2 Hwf Hch Hm) as [d [E [P [N [Z [M _]]]]]].
+  exists d. split; [exact E|]. rewrite P, N, sem_pos, sem_neg.
+  rewrite !st_abs_sparse_canon by assumption. auto.
+Qed.
+
+(* decode (enc a ++ enc b) = decode b into (decode a): concatenation is merging *)
+Lemma maps_chain_app : forall a b cur, maps_chain cur (a ++ b) <-> maps_chain cur a /\ maps_chain (last_mapid cur a) b.
+Proof.
+  induction a as [|x a IH]; intros b cur; cbn [app maps_chain].
+  - unfold last_mapid. cbn [fold_left]. tauto.
+  - rewrite IH. unfold last_mapid. cbn [fold_left]. tauto.
+Qed.
+Lemma last_mapid_app a b cur : last_mapid cur (a ++ b) = last_mapid (last_mapid cur a) b.
+Proof. apply fold_left_app. Qed.
+Theorem sparse_decode_concat wx a b mp p n z : fD2 wx = true ->
+  wf_stream a -> wf_stream b -> maps_chain mp (a ++ b) -> last_mapid mp a <> None ->
+  exists d1, dec_sketch_into wx (sp_ds mp p n z) (serialize a) = DOk d1 []
+             /\ dec_sketch_into wx (sp_ds mp p n z) (serialize a ++ serialize b) = dec_sketch_into wx d1 (serialize b).
+Proof.
+  intros HD2 Ha Hb Hch Hm. apply maps_chain_app in Hch. destruct Hch as [Hca Hcb].
+  eexists. split; [apply sparse_dec_sketch; assumption|].
+  assert (Hm2 : last_mapid (last_mapid mp a) b <> None).
+  { revert Hm. generalize (last_mapid mp a). clear. induction b as [|x b IH]; intros c Hc; [exact Hc|].
+    unfold last_mapid. cbn [fold_left]. apply IH. destruct x; try exact Hc. discriminate. }
+  rewrite <- serialize_app. rewrite sparse_dec_sketch; try assumption.
+  - rewrite sparse_dec_sketch by assumption.
+    unfold stream_pos_bins, stream_neg_bins, stream_zero. rewrite !map_app, !concat_app.
+    rewrite !bmerge_list_app, fold_left_app, last_mapid_app. reflexivity.
+  - apply Forall_app. split; assumption.
+  - apply maps_chain_app. split; assumption.
+  - rewrite last_mapid_app. exact Hm2.
+Qed.
+
+(* G5 instances for the sparse receiver *)
+Theorem sparse_truncation wx st b mp p n z pre t : fD2 wx = true -> fD3 wx = true ->
+  wf_stream st -> maps_chain mp st -> wf_block b -> kind_ok_block b ->
+  ser_block b = pre ++ t -> t <> [] -> pre <> [] ->
+  dec_sketch_into wx (sp_ds mp p n z) (serialize st ++ pre) = DErr EEof.
+Proof.
+  intros HD2 HD3 Hwf Hch Hb Hk H Ht Hp.
+  apply (dec_sketch_truncation ss_bins is_sparse any_w badd0 sparse_addw sparse_add wx HD2 sparse_np HD3 st b
+           (sp_ds mp p n z) pre t Hwf (any_w_stream st) Hch (sp_ds_good mp p n z) Hb Hk); auto.
+  destruct b; try exact I. apply any_w_bins.
+Qed.
+Theorem sparse_mapping_mismatch wx st mp p n z kd g o m0 rest : fD2 wx = true ->
+  wf_stream st -> maps_chain mp st -> last_mapid mp st = Some m0 ->
+  kind_ok kd -> fle g f64_one = false -> map_equals m0 (map_of kd g o) = false ->
+  dec_sketch_into wx (sp_ds mp p n z) (serialize st ++ ser_block (BMapping kd g o) ++ rest) = DErr EMismatch.
+Proof.
+  intros HD2 Hwf Hch Hm Hk Hfle Heq.
+  exact (dec_sketch_mapping_mismatch ss_bins is_sparse any_w badd0 sparse_addw sparse_add wx HD2 sparse_np st
+           (sp_ds mp p n z) kd g o m0 rest Hwf (any_w_stream st) Hch (sp_ds_good mp p n z) Hm Hk Hfle Heq).
+Qed.
+Theorem sparse_missing_mapping wx st p n z : fD2 wx = true ->
+  wf_stream st -> Forall (fun b => match b with BMapping _ _ _ => False | _ => True end) st ->
+  dec_sketch_into wx (sp_ds None p n z) (serialize st) = DErr EMissingMapping.
+Proof.
+  intros HD2 Hwf Hno.
+  assert (H : maps_chain None st /\ last_mapid None st = None).
+  { clear Hwf. induction st as [|b st IH]; [split; [exact I|reflexivity]|].
+    inversion Hno as [|x l Hb Hst]; subst. destruct (IH Hst) as [H1 H2].
+    destruct b; try contradiction; (split; [split; [exact I|exact H1]|exact H2]). }
+  destruct H as [Hch Hm].
+  exact (dec_sketch_missing_mapping ss_bins is_sparse any_w badd0 sparse_addw sparse_add wx HD2 sparse_np st
+           (sp_ds None p n z) Hwf (any_w_stream st) Hch (sp_ds_good None p n z) Hm).
+Qed.
+
+(* ================================================================== *)
+(* 9. G5: unknown flags; totality                                      *)
+(* ================================================================== *)
+Definition known_flag (f : byte) : Prop :=
+  ((flag_type f = ft_positive \/ flag_type f = ft_negative) /\
+   (flag_sub f = sub_idx_deltas_counts \/ flag_sub f = sub_idx_deltas \/ flag_sub f = sub_contiguous))
+  \/ (flag_type f = ft_mapping /\ kind_ok (N.shiftr f 2))
+  \/ f = flag_zero_count \/ f = flag_count \/ f = flag_sum \/ f = flag_min \/ f = flag_max.
+
+Lemma dec_bins_unknown s sub b :
+  sub <> sub_idx_deltas_counts -> sub <> sub_idx_deltas -> sub <> sub_contiguous ->
+  dec_bins s sub b = DErr EUnknownBins.
+Proof.
+  intros H1 H2 H3. apply N.eqb_neq in H1, H2, H3.
+  destruct s; unfold dec_bins, dec_bins_pag, dec_bins_generic; rewrite ?H1, ?H2, ?H3; reflexivity.
+Qed.
+
+Theorem unknown_flag wx k d f tl : fD3 wx = true -> ~ known_flag f ->
+  exists e, dec_blocks wx (S k) d (f :: tl) = DErr e /\ (e = EUnknownFlag \/ e = EUnknownBins \/ e = EUnknownMapping).
+Proof.
+  intros HD3 Hk. rewrite dec_blocks_S. cbv zeta.
+  destruct (flag_type f =? ft_positive)%N eqn:E1.
+  { apply N.eqb_eq in E1. rewrite dec_bins_unknown, HD3; [eexists; split; [reflexivity|auto]| | |];
+      intros Hs; apply Hk; left; auto. }
+  destruct (flag_type f =? ft_negative)%N eqn:E2.
+  { apply N.eqb_eq in E2. rewrite dec_bins_unknown, HD3; [eexists; split; [reflexivity|auto]| | |];
+      intros Hs; apply Hk; left; auto. }
+  destruct (flag_type f =? ft_mapping)%N eqn:E3.
+  { apply N.eqb_eq in E3. unfold dec_mapping. cbv zeta.
+    destruct ((N.shiftr f 2 =? 0) || (N.shiftr f 2 =? 1) || (N.shiftr f 2 =? 3))%N eqn:E4.
+    - exfalso. apply Hk. right. left. split; [exact E3|]. unfold kind_ok.
+      apply orb_true_iff in E4. destruct E4 as [E4|E4]; [apply orb_true_iff in E4; destruct E4 as [E4|E4]|];
+        apply N.eqb_eq in E4; auto.
+    - eexists; split; [reflexivity|auto]. }
+  assert (F0 : (f =? flag_zero_count)%N = false) by (apply N.eqb_neq; intros ->; apply Hk; unfold known_flag; do 2 right; left; reflexivity).
+  assert (F1 : (f =? flag_count)%N = false) by (apply N.eqb_neq; intros ->; apply Hk; unfold known_flag; do 3 right; left; reflexivity).
+  assert (F2 : (f =? flag_sum)%N = false) by (apply N.eqb_neq; intros ->; apply Hk; unfold known_flag; do 4 right; left; reflexivity).
+  assert (F3 : (f =? flag_min)%N = false) by (apply N.eqb_neq; intros ->; apply Hk; unfold known_flag; do 5 right; left; reflexivity).
+  assert (F4 : (f =? flag_max)%N = false) by (apply N.eqb_neq; intros ->; apply Hk; unfold known_flag; do 6 right; reflexivity).
+  rewrite F0. unfold dec_feature. rewrite F1, F2, F3, F4. cbn [orb].
+  destruct (ds_stats d); eexists; (split; [reflexivity|auto]).
+Qed.
+
+(* never a panic with sparse stores, whatever the bytes and whichever variant of the code *)
+Definition sp_res (r : dres store) : Prop :=
+  (exists m' rest, r = DOk (SS m') rest) \/ (exists e, r = DErr e).
+Lemma sp_idc_total : forall fuel n idx m b, sp_res (dec_idc_loop fuel n idx (SS m) b).
+Proof.
+  induction fuel as [|f IH]; intros n idx m b; rewrite dec_idc_loop_eq; destruct (n =? 0)%N;
+    try (left; eauto; fail); try (right; eauto; fail).
+  destruct (dec_sv b) as [d b1| |]; try (right; eauto; fail).
+  destruct (dec_count b1) as [c b2| |]; try (right; eauto; fail).
+  cbn [st_addw]. apply IH.
+Qed.
+Lemma sp_id_total : forall fuel n idx m b, sp_res (dec_id_loop fuel n idx (SS m) b).
+Proof.
+  induction fuel as [|f IH]; intros n idx m b; rewrite dec_id_loop_eq; destruct (n =? 0)%N;
+    try (left; eauto; fail); try (right; eauto; fail).
+  destruct (dec_sv b) as [d b1| |]; try (right; eauto; fail).
+  cbn [st_add]. apply IH.
+Qed.
+Lemma sp_cc_total : forall fuel n idx delta m b, sp_res (dec_cc_loop fuel n idx delta (SS m) b).
+Proof.
+  induction fuel as [|f IH]; intros n idx delta m b; rewrite dec_cc_loop_eq; destruct (n =? 0)%N;
+    try (left; eauto; fail); try (right; eauto; fail).
+  destruct (dec_count b) as [c b1| |]; try (right; eauto; fail).
+  cbn [st_addw]. apply IH.
+Qed.
+Lemma sp_bins_total m sub b : sp_res (dec_bins (SS m) sub b).
+Proof.
+  unfold dec_bins, dec_bins_generic.
+  destruct (sub =? sub_idx_deltas_counts)%N.
+  { destruct (dec_uv b); try (right; eauto; fail). apply sp_idc_total. }
+  destruct (sub =? sub_idx_deltas)%N.
+  { destruct (dec_uv b); try (right; eauto; fail). apply sp_id_total. }
+  destruct (sub =? sub_contiguous)%N; [|right; eauto].
+  destruct (dec_uv b) as [n b1| |]; try (right; eauto; fail).
+  destruct (dec_sv b1) as [i b2| |]; try (right; eauto; fail).
+  destruct (dec_sv b2) as [dl b3| |]; try (right; eauto; fail).
+  apply sp_cc_total.
+Qed.
+
+Definition ds_sparse (d : dsketch) : Prop := is_sparse (ds_pos d) /\ is_sparse (ds_neg d).
+Lemma dec_feature_res wx s f b :
+  match dec_feature wx s f b with
+  | DOk s' _ => ds_pos s' = ds_pos s /\ ds_neg s' = ds_neg s
+  | DErr _ => True
+  | DPanic => False
+  end.
+Proof.
+  unfold dec_feature, skip8.
+  destruct (ds_stats s); destruct (f =? flag_count)%N; destruct (f =? flag_sum)%N;
+    destruct (f =? flag_min)%N; destruct (f =? flag_max)%N; destruct (fD2 wx); cbn [orb];
+    try destruct (Varfloat.dec_vf b); try destruct (Varfloat.dec_f64le b); try destruct (length b <? 8);
+    cbn; auto.
+Qed.
+Lemma dec_mapping_no_panic f b : dec_mapping f b <> DPanic.
+Proof.
+  unfold dec_mapping. cbv zeta.
+  destruct ((N.shiftr f 2 =? 0) || (N.shiftr f 2 =? 1) || (N.shiftr f 2 =? 3))%N; [|discriminate].
+  destruct (Varfloat.dec_f64le b) as [g b1| |]; try discriminate.
+  destruct (Varfloat.dec_f64le b1) as [o b2| |]; try discriminate.
+  destruct (fle g f64_one); discriminate.
+Qed.
+
+Theorem dec_blocks_total wx : forall fuel d b, ds_sparse d -> dec_blocks wx fuel d b <> DPanic.
+Proof.
+  induction fuel as [|k IH]; intros d b Hd; destruct b as [|f b1]; try (cbn; discriminate).
+  destruct Hd as [[mp Hp] [mn Hn]]. rewrite dec_blocks_S. cbv zeta.
+  destruct (flag_type f =? ft_positive)%N.
+  { rewrite Hp. destruct (sp_bins_total mp (flag_sub f) b1) as [[m' [rest ->]]|[e ->]].
+    - apply IH. split; [eexists; reflexivity|eexists; exact Hn].
+    - destruct (fD3 wx); discriminate. }
+  destruct (flag_type f =? ft_negative)%N.
+  { rewrite Hn. destruct (sp_bins_total mn (flag_sub f) b1) as [[m' [rest ->]]|[e ->]].
+    - apply IH. split; [eexists; exact Hp|eexists; reflexivity].
+    - destruct (fD3 wx); discriminate. }
+  destruct (flag_type f =? ft_mapping)%N.
+  { pose proof (dec_mapping_no_panic f b1) as HM. destruct (dec_mapping f b1) as [m rest|e|]; [|discriminate|contradiction].
+    destruct (ds_map d) as [m0|]; [destruct (map_equals m0 m); [|discriminate]|];
+      apply IH; (split; [eexists; exact Hp|eexists; exact Hn]). }
+  destruct (f =? flag_zero_count)%N.
+  { destruct (dec_count b1); try discriminate. apply IH. split; [eexists; exact Hp|eexists; exact Hn]. }
+  pose proof (dec_feature_res wx d f b1) as HF.
+  destruct (dec_feature wx d f b1) as [s' rest|e|]; [|discriminate|contradiction].
+  destruct HF as [H1 H2]. apply IH. split; [rewrite H1; eexists; exact Hp|rewrite H2; eexists; exact Hn].
+Qed.
+Theorem decoder_total wx d b : ds_sparse d -> dec_sketch_into wx d b <> DPanic.
+Proof.
+  intros Hd. unfold dec_sketch_into.
+  pose proof (dec_blocks_total wx (S (length b)) d b Hd) as H.
+  destruct (dec_blocks wx (S (length b)) d b) as [s' rest|e|]; [|discriminate|contradiction].
+  destruct (ds_map s'); [|discriminate]. destruct (ds_stats s') as [t|]; [|discriminate].
+  destruct (feq (su_count t) f64_zero && negb (ds_plain_empty s')); discriminate.
+Qed.
